@@ -2987,7 +2987,9 @@ template< size_t L>
    size_t FixedString< L>::find( const FixedString& str, size_t pos) const
       noexcept
 {
-   if ((pos + str.mLength > mLength) || (mLength == 0) || (str.mLength == 0))
+   // pos can be max(64bit), so we cannot calc pos + str.mLength
+   if ((str.mLength > mLength) || (pos > mLength - str.mLength)
+       || (mLength == 0) || (str.mLength == 0))
       return std::string::npos;
    for (size_t idx = pos; idx <= (mLength - str.length()); ++idx)
    {
@@ -3002,7 +3004,9 @@ template< size_t L>
    size_t FixedString< L>::find( const std::string& str, size_t pos) const
       noexcept
 {
-   if ((pos + str.length() > mLength) || (mLength == 0) || str.empty())
+   // pos can be max(64bit), so we cannot calc pos + str.length()
+   if ((str.length() > mLength) || (pos > mLength - str.length())
+       || (mLength == 0) || str.empty())
       return std::string::npos;
    for (size_t idx = pos; idx <= (mLength - str.length()); ++idx)
    {
@@ -3017,8 +3021,9 @@ template< size_t L>
    size_t FixedString< L>::find( const char* str, size_t pos, size_t count)
       const noexcept
 {
-   if ((pos + count > mLength) || (mLength == 0) || (count == 0)
-       || (str == nullptr))
+   // pos can be max(64bit), so we cannot calc pos + count
+   if ((count > mLength) || (pos > mLength - count) || (mLength == 0)
+       || (count == 0) || (str == nullptr))
       return std::string::npos;
    for (size_t idx = pos; idx <= (mLength - count); ++idx)
    {
@@ -3056,7 +3061,7 @@ template< size_t L>
 {
    if ((mLength == 0) || (str.mLength == 0) || (str.mLength > mLength))
       return std::string::npos;
-   if ((pos == std::string::npos) || (pos + str.mLength > mLength))
+   if ((pos == std::string::npos) || (pos > mLength - str.mLength))
       pos = mLength - str.mLength;
    // have to add 1 in the assignment because of the decrement in the condition
    for (size_t idx = pos + 1; idx-- > 0; )
@@ -3074,7 +3079,7 @@ template< size_t L>
 {
    if ((mLength == 0) || str.empty() || (str.length() > mLength))
       return std::string::npos;
-   if ((pos == std::string::npos) || (pos + str.length() > mLength))
+   if ((pos == std::string::npos) || (pos > mLength - str.length()))
       pos = mLength - str.length();
    // have to add 1 in the assignment because of the decrement in the condition
    for (size_t idx = pos + 1; idx-- > 0; )
@@ -3099,7 +3104,7 @@ template< size_t L>
       count = str_len;
    if (count > mLength)
       return std::string::npos;
-   if ((pos == std::string::npos) || (pos + count > mLength))
+   if ((pos == std::string::npos) || (pos > mLength - count))
       pos = mLength - count;
    // have to add 1 in the assignment because of the decrement in the condition
    for (size_t idx = pos + 1; idx-- > 0; )
